@@ -91,6 +91,19 @@ def cases(tier, seed):
     for W in list(mats(2, 2, full=False))[1:(6 if tier == 'quick' else 30)]:
         for d, s in ((2 * DT, None), (3 * DT, None), (1.0, 0.5), (1.0, 0.7)):
             add({'e': 2}, [{'src': 'e', 'tgt': 'e', 'W': W, 'delay': d, 'spread': s}], 'delay' if s is None else 'gamma')
+    # two connections that leave the same source variable with different delays (each needs its own buffer)
+    for d1, d2 in ((2 * DT, 3 * DT), (3 * DT, None), (2 * DT, 2 * DT)):
+        for W in list(mats(2, 2, full=False))[3:7]:
+            c2 = {'src': 'e', 'tgt': 'i', 'W': [[1.5, -0.5], [0.25, 2.0]]}
+            if d2:
+                c2['delay'] = d2
+            add({'e': 2, 'i': 2}, [{'src': 'e', 'tgt': 'e', 'W': W, 'delay': d1}, c2], 'two_delays_one_source')
+    for s1, s2 in ((0.5, 0.7), (0.5, None)):
+        c2 = {'src': 'e', 'tgt': 'i', 'W': [[1.5, -0.5], [0.25, 2.0]], 'delay': 1.0}
+        if s2:
+            c2['spread'] = s2
+        add({'e': 2, 'i': 2}, [{'src': 'e', 'tgt': 'e', 'W': [[0.0, 2.0], [-0.5, 0.0]], 'delay': 1.0, 'spread': s1}, c2],
+            'two_kernels_one_source')
     return out
 
 
@@ -342,4 +355,4 @@ def gamma_reference(case, m, steps):
                     edges[idx] = (prev, e[1], e[2], e[3])
         cid += 1
     m2 = Model(ops, nodes, edges + new_edges, edge_tpls=m.edge_tpls)
-    return solvers.euler(m2, DT, steps - 1)
+    return solvers.euler_delayed(m2, DT, steps - 1)
